@@ -259,9 +259,10 @@ func (x *fx) contractCall(fc *FuncContract, key string, names []string, ptypes [
 			eff = newEffects()
 		}
 	} else {
-		eff = ec.ofContract(fc, key)
+		eff = ec.ofContract(fc, key, ptypes...)
 	}
-	modApplies := fc.HasModifies && (fc.ModProfile == "" || fc.ModProfile == e.profile)
+	mc := fc.Mod(e.profile)
+	modApplies := mc != nil
 	if !eff.none() {
 		x.registerEffects(eff)
 		sp := x.specOf(eff, "call of "+key)
@@ -273,17 +274,21 @@ func (x *fx) contractCall(fc *FuncContract, key string, names []string, ptypes [
 				sp.all = true
 				sp.writesAll = true
 			}
-			if len(fc.Modifies) == 0 {
+			sp.unknown = false
+			if len(mc.Exprs) == 0 {
 				sp.writesAll = false
 				sp.writes = map[string]bool{}
 			}
-			for _, m := range fc.Modifies {
+			for _, m := range mc.Exprs {
 				tv, err := env.eval(m)
 				if err != nil {
 					e.note("modifies clause of " + key + ": " + err.Error())
 					continue
 				}
-				sp.modRefs = append(sp.modRefs, refOf(tv)...)
+				for _, r := range refOf(tv) {
+					sp.modRefs = append(sp.modRefs, r)
+					sp.modFams = append(sp.modFams, famOfValue(tv))
+				}
 			}
 		} else if eff.All {
 			sp.unknown = true
@@ -313,6 +318,9 @@ func (x *fx) contractCall(fc *FuncContract, key string, names []string, ptypes [
 	for _, c := range fc.Ensures {
 		if c.Profile != "" && c.Profile != e.profile {
 			continue
+		}
+		if !c.HasProp(e.prop) {
+			continue // proved (and therefore usable) only in the runs of its own properties
 		}
 		tv, err := post.eval(c.Expr)
 		if err != nil {
@@ -482,4 +490,24 @@ func (x *fx) appendB(ci ssa.CallInstruction, args []ssa.Value) Term {
 		na, off, s, off, newLen, srcArr, t, off, s, inplace, oldArr, s, oldArr, s, e.S.zero(sl.Elem()), na))
 	e.set(st, f, fmt.Sprintf("(store %s %s %s)", h, tgt, na))
 	return res
+}
+
+// famOfValue: the base heap family of the object a value refers to.
+func famOfValue(tv TV) string {
+	t, ok := tv.Ty.(types.Type)
+	if !ok {
+		return ""
+	}
+	switch u := t.Underlying().(type) {
+	case *types.Pointer:
+		if at, ok := u.Elem().Underlying().(*types.Array); ok {
+			return famElem(at.Elem())
+		}
+		return famPtr(u.Elem())
+	case *types.Map:
+		return famMap(t)
+	case *types.Slice:
+		return famElem(u.Elem())
+	}
+	return ""
 }
